@@ -49,6 +49,7 @@ type hcase struct {
 	Parallel   int    `json:"parallel"`
 	Sweeper    bool   `json:"concurrent_housekeeping"`
 	HoldHijack bool   `json:"receive_path_waits_for_app_release"`
+	SetMessage bool   `json:"server_answers_through_setmessage,omitempty"`
 	QuickApp   bool   `json:"application_releases_at_once"`
 	Seed       int64  `json:"seed"`
 }
@@ -67,6 +68,7 @@ func runHistory(rec *vr.Rec, c hcase) {
 	}
 	defer p.Close()
 	p.HoldAfterHijack.Store(c.HoldHijack)
+	p.RespondViaSetMessage.Store(c.SetMessage)
 	var held atomic.Int64
 	changed := func(before snap, m *pool.Message) {
 		after := snapshot(m, before.where)
@@ -211,6 +213,7 @@ func TestRun(t *testing.T) {
 			Parallel:   1 + rnd.Intn(8),
 			Sweeper:    i%2 == 0,
 			HoldHijack: i%3 != 0,
+			SetMessage: i%4 == 2,
 			QuickApp:   i%4 < 2,
 			Seed:       rnd.Int63(),
 		})
